@@ -685,43 +685,54 @@ def check_cond(ctx, drv, text, scratch, thorough, defsets=None, origin="cond"):
 
 
 def check_include(ctx, drv, scratch):
-    """a file included from a Fortran source is read as free-form Fortran whatever its extension"""
+    """a file reached by #include from a Fortran source — directly or through a chain of includes — is read as
+    free-form Fortran whatever the extensions of the files on the way; its #define selects lines of the includer"""
     rng = ctx.rng
-    inc = ["! don't count this comment", "#define A 1", "x = 'it''s' // \"&\" ! c", "", "!$omp declare", "#ifdef B", "y = 1 &",
-           "  ! c", "  & + 2", "#endif"]
-    rng.shuffle(inc[:0])
-    inc_text = "\n".join(inc) + "\n"
-    name = rng.choice(["part.h", "part.inc", "part.hpp", "part.fi"])
+    body = ["! don't count this comment", "#define A 1", "x = 'it''s' // \"&\" ! c", "", "!$omp declare", "#ifdef B", "y = 1 &",
+            "  ! c", "  & + 2", "#endif"]
+    depth = rng.choice([1, 2, 2, 3])
+    names = [f"part{k}" + rng.choice([".h", ".inc", ".hpp", ".fi", ".hh", ".f90"]) for k in range(depth)]
     sub = os.path.join(scratch, "incl")
     os.makedirs(os.path.join(sub, "ext"), exist_ok=True)
-    ipath = os.path.join(sub, "ext", name)
-    with open(ipath, "w") as f:
-        f.write(inc_text)
-    main = f'#include "ext/{name}"\n#ifdef A\nm1 = 1\n#else\nm2 = 2\n#endif\n'
+    texts = {}
+    for k, name in enumerate(names):
+        lines = list(body)
+        if k > 0:
+            lines[1] = f"#define LVL{k} 1"
+        if k + 1 < depth:
+            lines.insert(rng.choice([0, 1, 5, len(lines)]), f'#include "{names[k + 1]}"')
+        texts[name] = "\n".join(lines) + "\n"
+        with open(os.path.join(sub, "ext", name), "w") as f:
+            f.write(texts[name])
+    main = f'#include "ext/{names[0]}"\n#ifdef A\nm1 = 1\n#else\nm2 = 2\n#endif\n'
     ext = rng.choice([".f90", ".F90"])
     mpath = os.path.join(sub, "main" + ext)
     with open(mpath, "w") as f:
         f.write(main)
     from codebasin import CodeBase, finder
+    from codebasin.preprocessor import FileNode
 
-    case = {"main": main, "include": inc_text, "include_name": name, "ext": ext, "origin": "include"}
-    ctx.count(key="include")
+    case = {"main": main, "includes": texts, "chain": names, "ext": ext, "origin": "include"}
+    ctx.count(key=f"include-chain-depth={depth}")
     try:
         cb = CodeBase(sub, exclude_patterns=["ext/*"])
         cfg = {"P": [{"file": mpath, "defines": ["B"], "include_paths": [], "include_files": []}]}
         st = finder.find(sub, cb, cfg, summarize_only=False)
-        tree = st.get_tree(ipath)
-        from codebasin.preprocessor import FileNode
-
-        got = [x for n in tree.walk() if not isinstance(n, FileNode) for x in n.lines]
+        got = {}
+        for name in names:
+            tree = st.get_tree(os.path.join(sub, "ext", name))
+            got[name] = [x for n in tree.walk() if not isinstance(n, FileNode) for x in n.lines]
         sel = lines_of_state(st, mpath)
     except Exception as e:  # noqa
         ctx.violation(f"include scenario raises {type(e).__name__}: {e}", case)
         return
-    rep = drv.ask({"op": "fortran", "text": inc_text}) if drv is not None else None
-    want = rep["spec"] if rep and rep["wf"] else twin_spec(inc_text)
-    if got != want:
-        ctx.violation(f"file included from a Fortran source: counted {got}, free-form reference {want}", case)
+    for name in names:
+        rep = drv.ask({"op": "fortran", "text": texts[name]}) if drv is not None else None
+        want = rep["spec"] if rep and rep["wf"] else twin_spec(texts[name])
+        if got[name] != want:
+            ctx.violation(f"{name} (level {names.index(name) + 1} of the include chain {names} below a Fortran source): counted {got[name]}, "
+                          f"free-form reference {want}", case)
+            break
     if sel != [1, 2, 3, 4, 6]:
         ctx.violation(f"#define in the included file does not select lines of the includer as in C: {sel}", case)
 
@@ -821,7 +832,7 @@ def run(ctx, drv):
             check_cond(ctx, drv, t, cdir, i < n_ext, origin="cond-split" if i % 2 else "cond")
         idir = os.path.join(scratch, "inc")
         os.makedirs(idir)
-        for i in range(ctx.n(3, 20)):
+        for i in range(ctx.n(12, 60)):
             check_include(ctx, drv, idir)
 
 
